@@ -70,6 +70,11 @@ class AstShim:
 _LE_CACHE: dict = {}
 
 
+def _quiet_print(*a, **k):
+    """verbose tracing of the code under analysis: output discarded (its arguments are still evaluated)"""
+    return None
+
+
 def lit_eval(x):
     if isinstance(x, str):
         return ast.literal_eval(x)
@@ -159,6 +164,7 @@ def _load_rewritten(repo, pkgname="peg_parser", only=MODS):
             mod.__dict__["__vin__"] = chars.vin
             mod.__dict__["__vjoin__"] = chars.vjoin
             mod.__dict__["__vmeth__"] = chars.vmeth
+            mod.__dict__["print"] = _quiet_print
             sys.modules[f"{pkgname}.{m}"] = mod
             setattr(pkg, m, mod)
             exec(code, mod.__dict__)
